@@ -198,14 +198,16 @@ def rule_take(ctx, M):
             probs.append("expected one Some(..) and at least one None return")
         else:
             p = somes[0][2]
-            blk, path = flow.payload_source(p)
-            site = bi.by_block.get(blk) if blk is not None else None
-            want = (("variant", "Done"), ("field", 0), ("variant", variant), ("field", 0))
-            if not (site is not None and site.key == ("core::mem::replace", "replace") and path == want):
-                probs.append("Some payload is not replace(self, Gone)@Done@%s" % variant)
+            # the old value is taken out of *self with mem::replace / mem::swap, leaving Gone behind
+            tks = flow.takes_of(bi, ("param", 1))
+            want = ("field", ("variant", ("field", ("variant", tks[0].taken, "Done"), 0), variant), 0) if len(tks) == 1 else None
+            site = tks[0].site if len(tks) == 1 else None
+            if site is None or p != want:
+                probs.append("Some payload is not <value taken out of self>@Done@%s" % variant)
             else:
-                a1 = site.arg(1)
-                if not (a1[0] == "agg" and a1[1] == ("MaybeDone", "Gone")):
+                fresh = [a for a in (site.arg(0), site.arg(1)) if a != ("param", 1)]
+                gone = ("agg", ("MaybeDone", "Gone"), ())
+                if not fresh or fresh[0] != gone:
                     probs.append("the value is not replaced by Gone")
                 # the replace is control-dependent on self being Done(variant)
                 g = []
